@@ -55,6 +55,9 @@ func c19Gen(r *gen.Rng, tier string, idx int) interface{} {
 		if mv := MaxVarCNF(c.CNF); mv > c.N {
 			c.N = mv
 		}
+		if r.Chance(1, 12) { // degenerate files: no clause at all, over zero or a few declared variables
+			c.CNF, c.N = nil, []int{0, 0, 1, 3}[r.Intn(4)]
+		}
 		c.Flags = [][]string{nil, nil, {"-count"}, {"-certified"}, {"-mus"}, {"-mus"}, {"-cp"}, {"-verbose"}, {"-certified", "-verbose"}, {"-cp", "-verbose"}}[r.Intn(10)]
 		if len(c.Flags) > 0 && c.Flags[0] == "-mus" {
 			c.Content = gen.DimacsLineLayout(r, c.CNF, c.N)
